@@ -457,7 +457,7 @@ def jobs_for(prop, tier):
     # program schedule cap, reported when hit)
     gen = sched("gen", tier, 2, 16, 20000 if thorough else 1500)
     if prop == "C02":
-        j = sched("c02", tier, b, 16) + sched("c02w", tier, b, 8) + sched("c02x", tier, b, 4) + sched("c02t", tier, b, 8) + sched("c07", tier, b, 2) + sched("c16", tier, b, 2) + loom + gen + sched("fine", tier, b, 4)
+        j = sched("c02", tier, b, 16) + sched("c02w", tier, b, 8) + sched("c02x", tier, b, 4) + sched("c02t", tier, b, 8) + sched("c07", tier, b, 2) + sched("c16", tier, b, 2) + loom + gen + sched("fine", tier, b, 4) + sched("inwrite", tier, b, 4)
     elif prop == "C09":
         j = sched("c09", tier, 2 if thorough else 1, 8, 20000) + sched("c02", tier, 2, 16) + sched("c07", tier, 2, 2) + sched("rdfull", tier, 1, 2, 20000) + gen
         # a single thread under the single-thread scheduler (E1): a lock the caller holds
@@ -479,7 +479,7 @@ def jobs_for(prop, tier):
     elif prop in ("C03", "C08", "C10", "C11"):
         j = j + sched("c02", tier, 2, 16) + sched("c02w", tier, 2, 8) + sched("c02x", tier, 2, 4) + gen
         # scheduling also at the loads of an entry's shared flags and weight
-        j = j + sched("fine", tier, b, 4)
+        j = j + sched("fine", tier, b, 4) + sched("inwrite", tier, b, 4)
         if prop == "C08":
             j = j + sched("rdfull", tier, 1, 2, 20000)
         if prop == "C10":
